@@ -22,12 +22,12 @@ type Call struct {
 }
 
 type Scenario struct {
-	Cfg     int // bit0 debug logger, bit1 io logger
-	Init    [][]byte
-	Replies [][][]byte
+	Cfg        int // bit0 debug logger, bit1 io logger
+	Init       [][]byte
+	Replies    [][][]byte
 	WF, RF, FF []int
-	Calls   []Call
-	Tag     string
+	Calls      []Call
+	Tag        string
 	// oracle switches
 	MaxWritesPerCall int  // 0 = don't check; else every call may write at most that many frames
 	NoAccept         bool // C01: no call may return a value (every delivered frame is corrupt/foreign)
@@ -35,7 +35,9 @@ type Scenario struct {
 
 type capLogger struct{ lines []string }
 
-func (l *capLogger) Println(v ...any) { l.lines = append(l.lines, strings.TrimSuffix(fmt.Sprintln(v...), "\n")) }
+func (l *capLogger) Println(v ...any) {
+	l.lines = append(l.lines, strings.TrimSuffix(fmt.Sprintln(v...), "\n"))
+}
 
 func HEX(b []byte) string { return strings.ToUpper(hex.EncodeToString(b)) }
 
@@ -91,16 +93,16 @@ func intsStr(l []int) string {
 }
 
 type RunResult struct {
-	Op      string
-	Out     string
-	Results []string
-	Port    *Port
-	Lines   [][2][]byte
-	PerCallWrites []int
-	Violations []string // oracle findings (independent of the Lean model)
-	Panicked bool
-	kept     [][]byte
-	keptCopy []string
+	Op              string
+	Out             string
+	Results         []string
+	Port            *Port
+	Lines           [][2][]byte
+	PerCallWrites   []int
+	Violations      []string // oracle findings (independent of the Lean model)
+	Panicked        bool
+	kept            [][]byte
+	keptCopy        []string
 	RetainedChecked int
 }
 
@@ -157,43 +159,63 @@ func doCall(vd *vedirect.Vedirect, c Call, res *RunResult) (out string) {
 	case "devid":
 		v, err := vd.GetDeviceId()
 		if err != nil {
-			return "err:" + errKind(err)
+			return "err:" + errKind(err) + nonZero(v != 0, v)
 		}
 		return "ok:" + strconv.Itoa(int(v))
 	case "raw":
 		v, err := vd.VeCommandGet(c.Addr)
 		if err != nil {
-			return "err:" + errKind(err)
+			return "err:" + errKind(err) + nonZero(len(v) != 0, HEX(v))
 		}
 		res.keep(v)
 		return "ok:" + HEX(v)
 	case "uint":
 		v, err := vd.GetUint(c.Addr)
 		if err != nil {
-			return "err:" + errKind(err)
+			return "err:" + errKind(err) + nonZero(v != 0, v)
 		}
 		return "ok:" + strconv.FormatUint(v, 10)
 	case "int":
 		v, err := vd.GetInt(c.Addr)
 		if err != nil {
-			return "err:" + errKind(err)
+			return "err:" + errKind(err) + nonZero(v != 0, v)
 		}
 		return "ok:" + strconv.FormatInt(v, 10)
 	case "str":
 		v, err := vd.GetString(c.Addr)
 		if err != nil {
-			return "err:" + errKind(err)
+			return "err:" + errKind(err) + nonZero(v != "", HEX([]byte(v)))
 		}
 		return "ok:" + HEX([]byte(v))
 	case "cmd":
 		v, err := vd.VeCommand(vedirect.VeCommand(c.Cmd), c.Addr)
 		if err != nil {
-			return "err:" + errKind(err)
+			return "err:" + errKind(err) + nonZero(len(v) != 0, HEX(v))
 		}
 		res.keep(v)
 		return "ok:" + HEX(v)
 	}
 	return "bad-call"
+}
+
+// nonZero marks an error result that came with a value other than the type's zero value (the model's error results
+// carry no value, so the mark shows up as a disagreement; C05 demands the zero value outright).
+func nonZero(nz bool, v any) string {
+	if !nz {
+		return ""
+	}
+	return fmt.Sprintf("+nonzero-value=%v", v)
+}
+
+// chunkCredit: the number of Reads a list of chunks can satisfy (bufio reads with a 4096 byte buffer)
+func chunkCredit(cs [][]byte) int {
+	n := 0
+	for _, c := range cs {
+		if len(c) > 0 {
+			n += 1 + len(c)/1024
+		}
+	}
+	return n
 }
 
 func callName(c Call) string {
@@ -254,7 +276,17 @@ func RunScenario(sc *Scenario) *RunResult {
 		}
 		evFrom := len(port.Events)
 		wFrom := port.NW
+		rFrom := port.NR
+		credit := chunkCredit(port.Queue)
 		out := doCall(vd, c, res)
+		for k := wFrom; k < port.NW && k < len(port.Replies); k++ {
+			credit += chunkCredit(port.Replies[k])
+		}
+		// C06: every Read either delivers data the device sent or ends an attempt, so a call performs at most
+		// (chunks the device supplied) + 8 Reads (theorem reads_bounded)
+		if out != "HANG" && port.NR-rFrom > credit+8 {
+			res.Violations = append(res.Violations, fmt.Sprintf("call %d (%s) performed %d reads although the device supplied only %d chunks of data: more than one read per attempt after the port reported no more data", i, callName(c), port.NR-rFrom, credit))
+		}
 		bits := idleBits(port.Events[evFrom:])
 		if out == "PANIC" {
 			res.Panicked = true
